@@ -192,6 +192,36 @@ class Unit:
         for n in names:
             self.const(relpath, n, scope, cname=(prefix if prefix is not None else scope + '_') + n, ctype=ctype)
 
+    def enum(self, relpath, name, scope=None, prefix=None):
+        """enum / enum class with auto-numbered enumerators."""
+        s = self.src(relpath)
+        ms = list(re.finditer(r'\benum\s+(?:class\s+)?' + re.escape(name) + r'\s*(?::\s*\w+\s*)?\{([^}]*)\}', s.text))
+        if len(ms) != 1:
+            raise ExtractError('enum %s found %d times in %s' % (name, len(ms), relpath))
+        val = -1
+        out = []
+        for item in ms[0].group(1).split(','):
+            item = item.strip()
+            if not item:
+                continue
+            if '=' in item:
+                nm, v = [x.strip() for x in item.split('=')]
+                val = int(v, 0)
+            else:
+                nm = item
+                val += 1
+            cn = (prefix if prefix is not None else name + '_') + nm
+            self.chunks.append(('const', '#define %s (%d)\n' % (cn, val)))
+            self.tr.consts[name + '::' + nm] = cn
+            if scope:
+                self.tr.consts[scope + '::' + name + '::' + nm] = cn
+                self.tr.consts[scope + '::' + nm] = cn
+            out.append((nm, val))
+        self.tr.typemap[name] = 'int'
+        if scope:
+            self.tr.typemap[scope + '::' + name] = 'int'
+        return out
+
     def in_class_scope(self, cls, names):
         """Make `name` resolve to `Class::name` constants inside methods of cls (unqualified use)."""
         for n in names:
@@ -337,7 +367,7 @@ class Unit:
         return a, b
 
     def fragment(self, relpath, cname, start_re, end_re, params, ret='void', cls=None, locals_=None,
-                 include_end=False, rules=(), epilogue='', prologue='', is_static=True):
+                 include_end=False, rules=(), epilogue='', prologue='', is_static=True, using_ns=()):
         """Pull the statements between two anchors as the body of a generated function.
         params: list of (C++ type, name, is_ref)."""
         s = self.src(relpath)
@@ -354,6 +384,7 @@ class Unit:
         f.extra_locals = locals_ or {}
         f.relpath = relpath
         f.fragment = True
+        f.using_ns = list(using_ns)
         self.funcs.append(f)
         return f
 
@@ -371,6 +402,13 @@ class Unit:
             ctext = self.contract_text(c)
             body = f.body_c
             body = self.splice_loops(f, body, c.get('loops', {}))
+            for (anchor, gtext) in c.get('ghost_at', []):
+                # ghost statement spliced after a unique anchor inside the body (must match exactly once)
+                self.check_ghost(f, gtext)
+                ms = list(re.finditer(anchor, body))
+                if len(ms) != 1:
+                    raise ExtractError('%s: ghost anchor %r matches %d times' % (f.cname, anchor, len(ms)))
+                body = body[:ms[0].end()] + ' ' + gtext + ' ' + body[ms[0].end():]
             if c.get('ghost_entry'):
                 self.check_ghost(f, c['ghost_entry'])
                 body = '\n' + c['ghost_entry'] + '\n' + body
@@ -452,8 +490,51 @@ class Unit:
         out = []
         last = 0
         for o, (i0, k) in enumerate(heads):
+            if i0 < last:
+                continue   # loop nested inside a body that was already consumed by an L-cut
+            last_start = last
             out.append(untok(toks[last:k + 1]))
             last = k + 1
+            if o in loops and loops[o].get('mode') == 'cut':
+                # L-cut (DESIGN 2.2): classical loop-cut transformation of the extracted text.
+                #   assert I (base); havoc frame; assume I; if (guard) { body; assert I (step); assume false }
+                # code after the loop continues with I && !guard (or with the state at a `break`).
+                lc = loops[o]
+                if toks[i0][1] != 'while':
+                    raise ExtractError('%s: L-cut supports while loops only (loop #%d)' % (f.cname, o))
+                guard = untok(toks[i0 + 1:k + 1])
+                # locate body statement: block or single statement
+                b0 = k + 1
+                while toks[b0][0] == 'ws':
+                    b0 += 1
+                if toks[b0][1] != '{':
+                    raise ExtractError('%s: L-cut needs a braced loop body (loop #%d)' % (f.cname, o))
+                d = 0
+                b1 = b0
+                while True:
+                    if toks[b1][1] == '{':
+                        d += 1
+                    elif toks[b1][1] == '}':
+                        d -= 1
+                        if d == 0:
+                            break
+                    b1 += 1
+                body_toks = toks[b0 + 1:b1]
+                btxt = self._rewrite_jumps(f, body_toks, o)
+                inv = ' && '.join('(%s)' % x for x in lc['invariant'])
+                # replace the already emitted prefix+header by the prefix alone
+                out[-1] = untok(toks[last_start:i0])
+                t = ('\n    __CPROVER_assert(%s, "loop invariant base (loop %d of %s)");\n    %s\n    __CPROVER_assume(%s);\n'
+                     '    if %s {\n%s\n    __cont_%d: ;\n    __CPROVER_assert(%s, "loop invariant step (loop %d of %s)");\n'
+                     % (inv, o, f.cname, lc['havoc'], inv, guard, btxt, o, inv, o, f.cname))
+                if 'decreases' in lc:
+                    t = t.replace('    if %s {' % guard, '    if %s { long long ghost_dec_%d = (%s);' % (guard, o, lc['decreases']), 1)
+                    t += '    __CPROVER_assert((%s) < ghost_dec_%d && ghost_dec_%d >= 0, "loop variant decreases (loop %d of %s)");\n' % (lc['decreases'], o, o, o, f.cname)
+                t += '    __CPROVER_assume(0);\n    }\n    __brk_%d: ;\n' % o
+                out.append(t)
+                last = b1 + 1
+                self.cut_loops = getattr(self, 'cut_loops', []) + ['%s.loop%d' % (f.cname, o)]
+                continue
             if o in loops:
                 lc = loops[o]
                 t = ''
@@ -465,6 +546,38 @@ class Unit:
                     t += '\n    __CPROVER_decreases(%s)' % lc['decreases']
                 out.append(t + '\n')
         out.append(untok(toks[last:]))
+        return ''.join(out)
+
+    def _rewrite_jumps(self, f, body_toks, o):
+        """continue -> goto __cont_o ; break -> goto __brk_o  (only those belonging to this loop:
+        nested loops/switches keep theirs)."""
+        out = []
+        depth_stack = []   # stack of ('loop'|'switch', brace depth at which it closes)
+        i, n = 0, len(body_toks)
+        depth = 0
+        pending = None
+        while i < n:
+            k, t = body_toks[i]
+            if k == 'id' and t in ('while', 'for', 'do', 'switch'):
+                pending = 'switch' if t == 'switch' else 'loop'
+            if t == '{':
+                depth += 1
+                if pending:
+                    depth_stack.append((pending, depth))
+                    pending = None
+            elif t == '}':
+                if depth_stack and depth_stack[-1][1] == depth:
+                    depth_stack.pop()
+                depth -= 1
+            elif t == ';' and pending:
+                pending = None    # unbraced nested statement: not supported for jumps inside, but harmless
+            if k == 'id' and t == 'continue' and not any(x[0] == 'loop' for x in depth_stack):
+                out.append('goto __cont_%d' % o)
+            elif k == 'id' and t == 'break' and not depth_stack:
+                out.append('goto __brk_%d' % o)
+            else:
+                out.append(t)
+            i += 1
         return ''.join(out)
 
     def _is_do_tail(self, toks, i):
